@@ -35,6 +35,13 @@ def expandPiece (p : String) : Option Bytes :=
       let a ← a.toNat?
       pure ((List.range n).map fun i => UInt8.ofNat ((i * a + i / 256) % 256))
     | _ => none
+  | 'm' :: rest =>
+    match (String.ofList rest).splitOn "x" with
+    | [n, h] => do
+      let n ← n.toNat?
+      let chunk ← ofHex h
+      pure ((List.replicate n chunk).flatten)
+    | _ => none
   | _ => none
 
 def expandSpec (s : String) : Option Bytes :=
